@@ -135,13 +135,55 @@ def rule_state(ctx):
     return n + 1
 
 
+def _cancel_merged(ctx, od, rs):
+    """_cancel_compaction merged into open_db: the same two requirements on open_db's own paths - after read_state, every
+    path on which the DB is not opened for compacting and the cursor is not -1 resets both progress fields to -1; a path
+    opened for compacting resets nothing."""
+    from .. import paths as P
+    cfg = ctx.cfg(od)
+    flag = od.params[4] if len(od.params) > 4 else (od.kwonly[-1] if od.kwonly else None)
+    ok = len(rs) == 1 and flag is not None
+    resetting = kept = 0
+    for pth in P.paths(od.node.body) if ok else []:
+        if pth.exit == 'raise':
+            continue
+        sets = {norm(st.targets[0]): (norm(st.value), st) for st, _e in pth.events if isinstance(st, ast.Assign) and len(st.targets) == 1}
+        comp = P.truthy(pth, flag)
+        started = P.decided(ctx, od, pth, 'self.comp_cursor != -1')
+        reset = sets.get('self.comp_flush_count', ('', None))[0] == '-1' and sets.get('self.comp_cursor', ('', None))[0] == '-1'
+        touched = 'self.comp_flush_count' in sets or 'self.comp_cursor' in sets
+        if comp is True:
+            kept += 1
+            ok = ok and not touched
+        elif comp is False and started is not False:
+            resetting += 1
+            ok = ok and reset
+            # ... and after the state was read
+            for key in ('self.comp_flush_count', 'self.comp_cursor'):
+                if reset:
+                    ok = ok and cfg.dominates(cfg.node(q.stmt(rs[0])), cfg.node(sets[key][1]))
+        elif comp is None and touched:
+            ok = False
+    ok = ok and resetting >= 1 and kept >= 1
+    ctx.check(ok, 'C14.CANCEL', ctx.key(od, None, 'cancel unless compacting'),
+              'after reading the state, open_db cancels an unfinished compaction exactly when not opened for compacting',
+              'open_db does not reset comp_cursor and comp_flush_count to -1 exactly under `not compacting` (and an unfinished compaction) '
+              'after read_state', loc=ctx.loc(od, od.node))
+    ctx.check(ok, 'C14.CANCEL', ctx.key(od, None, 'resets progress'),
+              'cancelling resets comp_cursor and comp_flush_count to -1', 'cancelling does not reset both progress fields to -1',
+              loc=ctx.loc(od, od.node))
+    return 2 + _open_flags(ctx, od)
+
+
 def rule_cancel(ctx):
     n = 0
     od = ctx.func('hist', 'History.open_db')
     cfg = ctx.cfg(od)
-    cc = ctx.func('hist', 'History._cancel_compaction')
-    cs = q.calls_resolving_to(ctx, od, cc)
+    cc = ctx.func('hist', 'History._cancel_compaction', required=False)
     rs = q.calls_resolving_to(ctx, od, ctx.func('hist', 'History.read_state'))
+    if cc is None:
+        return n + _cancel_merged(ctx, od, rs)
+    cs = q.calls_resolving_to(ctx, od, cc)
     ok = len(cs) == 1 and len(rs) == 1
     if ok:
         conds = pr.control_conditions(q.stmt(cs[0]), od.node)
@@ -168,6 +210,11 @@ def rule_cancel(ctx):
               'cancelling resets comp_cursor and comp_flush_count to -1', 'cancelling does not reset both progress fields to -1',
               loc=ctx.loc(cc, cc.node))
     n += 1
+    return n + _open_flags(ctx, od)
+
+
+def _open_flags(ctx, od):
+    n = 0
     ob = ctx.func('db', 'DB._open_dbs')
     hs = q.calls_resolving_to(ctx, ob, od)
     # the flag is followed by role, not by position: the parameter of _open_dbs (positional or keyword-only) that is handed
@@ -357,7 +404,9 @@ def rule_grouping(ctx):
             if isinstance(other, ast.Name) and len(d.get(other.id, [])) == 1:
                 other = d[other.id][0][1]
             kl_ok = norm(other) in ('HASHX_LEN + 2', '2 + HASHX_LEN')
-        hx = [s for s in lp.body if isinstance(s, ast.Assign) and norm(s.value) == f'{keyv}[:-2]' and isinstance(s.targets[0], ast.Name)]
+        # hashX = key[:-2]; behind the length guard key[:HASHX_LEN] is the same slice
+        hx = [s for s in lp.body if isinstance(s, ast.Assign) and isinstance(s.targets[0], ast.Name)
+              and (norm(s.value) == f'{keyv}[:-2]' or (kl_ok and norm(s.value) == f'{keyv}[:HASHX_LEN]'))]
         hxv = hx[0].targets[0].id if len(hx) == 1 else None
         ok = kws == {'prefix': f.params[1]} and len(skips) == 1 and kl_ok and hxv is not None and lp.body.index(skips[0]) < lp.body.index(hx[0])
     ctx.check(ok, 'C14.GROUPING', ctx.key(f, None, 'rows of one prefix'),
@@ -371,8 +420,27 @@ def rule_grouping(ctx):
     n += 1
     if ok:
         lp = loops[0]
-        tail = [norm(x) for x in lp.body[-3:]]
-        okf = tail == [f'{priorv} = {hxv}', f'{mapv}[{keyv}] = {hv}', f'{listv}.append({hv})']
+        # per path through one row that is not skipped: the row joins the map and the list, last thing, and afterwards the
+        # remembered script hash is this row's (assigned, or found equal already)
+        from .. import paths as P
+        okf = True
+        rows = 0
+        for pth in P.paths(lp.body):
+            if pth.exit == 'continue' and not any(isinstance(st_, ast.Assign) and norm(st_.targets[0]) == f'{mapv}[{keyv}]' for st_, _e in pth.events):
+                continue
+            rows += 1
+            simple = [norm(st_) for st_, _e in pth.events if isinstance(st_, (ast.Assign, ast.Expr))]
+            okf = okf and simple[-2:] == [f'{mapv}[{keyv}] = {hv}', f'{listv}.append({hv})'] and pth.exit in ('fall', 'continue')
+            cur_hx = norm(pth.env.get(hxv)) if hxv in pth.env else None
+            prior_now = norm(pth.env.get(priorv)) if priorv in pth.env else priorv
+            same = cur_hx is not None and prior_now == cur_hx
+            if not same:
+                same = any((not pol) and isinstance(t, ast.Compare) and isinstance(t.ops[0], ast.NotEq)
+                           and {norm(t.left), norm(t.comparators[0])} == {cur_hx, priorv} for t, pol, _n in pth.conds if isinstance(t, ast.expr)) or \
+                    any(pol and isinstance(t, ast.Compare) and isinstance(t.ops[0], ast.Eq)
+                        and {norm(t.left), norm(t.comparators[0])} == {cur_hx, priorv} for t, pol, _n in pth.conds if isinstance(t, ast.expr))
+            okf = okf and same
+        okf = okf and rows >= 1
         clears = sorted(norm(c) for c in walk_own(lp) if isinstance(c, ast.Call) and isinstance(c.func, ast.Attribute) and c.func.attr == 'clear')
         okf = okf and clears == sorted([f'{listv}.clear()', f'{mapv}.clear()'])
         # the in-loop compaction happens exactly when the script hash changes (and a previous one exists)
